@@ -90,6 +90,9 @@ type Config struct {
 	Votes           bool          `json:"votes"`
 	Record          bool          `json:"record"`
 	KeyPoolSize     int           `json:"key_pool"`
+
+	ConsumerUnbonding time.Duration `json:"consumer_unbonding"`
+	HandshakeDelayMax int           `json:"handshake_delay_max"`
 }
 
 func b64(bz []byte) string {
